@@ -131,7 +131,7 @@ class Verifier:
             pass
         post_env = Env(env)  # locals at the exit point are visible to clauses (use ifdef for path-local names)
         post_env.vars[c.result_name] = result
-        if fr.is_generator:
+        if fr.is_generator and not c.ghost.get("yield_hook"):
             post_env.vars["trace"] = self.frame_trace(I, fr)
         vo = Obligation((self.c.name or self.c.target).split("inline_snapshot.", 1)[-1], "vacuity", "exit-reachable", [], list(I.ctx.pc), z3.BoolVal(False), self.path_id)
         self.vacuity_obligations.append(vo)
@@ -811,13 +811,13 @@ class Verifier:
         return True
 
     def with_enter(self, I, m, item, env):
-        hook = self.spec_ns.get("with_hook")
+        hook = self.c.ghost.get("with_hook") or self.spec_ns.get("with_hook")
         if hook is not None:
             return hook(I, m, "enter", None, env)
         return Opaque("with")
 
     def with_exit(self, I, m, sig, env):
-        hook = self.spec_ns.get("with_hook")
+        hook = self.c.ghost.get("with_hook") or self.spec_ns.get("with_hook")
         if hook is not None:
             return hook(I, m, "exit", sig, env)
 
@@ -842,6 +842,10 @@ class Verifier:
 
     def on_yield(self, I, v, node):
         from .core import list_append
+
+        yh = self.c.ghost.get("yield_hook")
+        if yh is not None and I.frame.qual == self.c.target:
+            return yh(I, v, node)
 
         fr = I.frame
         tr = self.frame_trace(I, fr)
